@@ -92,22 +92,19 @@ class GotranPythonCodePrinter(PythonCodePrinter):
         return "".join(result)
 
     def _print_And(self, expr):
-        if len(expr.args) == 2:
-            value = f"numpy.logical_and({self._print(expr.args[0])}, {self._print(expr.args[1])})"
-        else:
-            args = ", ".join(self._print(arg) for arg in expr.args)
-            value = f"numpy.logical_and.reduce(({args}))"
-
+        # Nested binary calls broadcast scalar and array operands (ufunc.reduce
+        # over a tuple does not) and are accepted by jax.numpy as well
+        args = [self._print(arg) for arg in expr.args]
+        value = args[0]
+        for arg in args[1:]:
+            value = f"numpy.logical_and({value}, {arg})"
         return value
 
     def _print_Or(self, expr):
-        # value = super()._print_Or(expr)
-        if len(expr.args) == 2:
-            value = f"numpy.logical_or({self._print(expr.args[0])}, {self._print(expr.args[1])})"
-        else:
-            args = ", ".join(self._print(arg) for arg in expr.args)
-            value = f"numpy.logical_or.reduce(({args}))"
-
+        args = [self._print(arg) for arg in expr.args]
+        value = args[0]
+        for arg in args[1:]:
+            value = f"numpy.logical_or({value}, {arg})"
         return value
 
     # def _print_Equality(self, expr):
